@@ -88,11 +88,11 @@ class R2A:
         return self.sent == 1
 
 
-def build_a2r(facts, summaries, qw):
+def build_a2r(facts, summaries, qw, sw=8):
     D = Design(facts, summaries)
     ap_start, ap_reset, ap_done = D.wire('ap_start'), D.wire('ap_reset'), D.wire('ap_done')
     ic = D.el.find_class('AXI4StreamInterface', AXI)
-    stream = D.el.instantiate(ic, [D.sys, 's', 8], dict(has_tlast=True, has_tkeep=True))
+    stream = D.el.instantiate(ic, [D.sys, 's', sw], dict(has_tlast=True, has_tkeep=True))
     q, loaded, active = D.wire('q', qw), D.wire('loaded'), D.wire('active')
     D.make('Axi2Reg', 'dut', ap_start, ap_reset, ap_done, stream, q, loaded, active, rel=VW)
     D.prepare()
@@ -197,6 +197,13 @@ def run(ctx, sm, facts):
     tier, seed = ctx.tier, ctx.seed
     cosim(ctx, 'C16.a', 'Axi2Reg', lambda: build_a2r(facts, summaries, 4), lambda: A2R(4), ['ap_start', 'ap_reset', 'ap_done', 'tvalid'],
           dict(tdata=[0x00, 0xA5, 0x5A, 0xFF, 0x13]), tier, seed, '%s:Axi2Reg.__init__' % VW)
+    # register as wide as the stream, and a register / stream wider than a machine word (the low qw bits of the beat, whatever qw is)
+    cosim(ctx, 'C16.a', 'Axi2Reg(q=8,stream=8)', lambda: build_a2r(facts, summaries, 8), lambda: A2R(8), ['ap_start', 'ap_reset', 'ap_done', 'tvalid'],
+          dict(tdata=[0x00, 0xA5, 0x5A, 0xFF, 0x80]), 'quick', seed, '%s:Axi2Reg.__init__' % VW)
+    cosim(ctx, 'C16.a', 'Axi2Reg(q=65,stream=128)', lambda: build_a2r(facts, summaries, 65, 128), lambda: A2R(65), ['ap_start', 'ap_reset', 'ap_done', 'tvalid'],
+          dict(tdata=[0, (1 << 128) - 1, 1 << 64, (1 << 64) - 1, (0xA5 << 60) | 0x13, 1 << 65]), 'quick', seed, '%s:Axi2Reg.__init__' % VW)
+    cosim(ctx, 'C16.b', 'Reg2Axi(w=72)', lambda: build_r2a(facts, summaries, 72), lambda: R2A(72), ['ap_start', 'ap_reset', 'ap_done', 'load_outs', 'tready'],
+          dict(reg_in=[0, (1 << 72) - 1, 1 << 71, 1 << 64, (1 << 64) - 1]), 'quick', seed, '%s:Reg2Axi.__init__' % VW)
     cosim(ctx, 'C16.b', 'Reg2Axi', lambda: build_r2a(facts, summaries, 8), lambda: R2A(8), ['ap_start', 'ap_reset', 'ap_done', 'load_outs', 'tready'],
           dict(reg_in=[0x00, 0xA5, 0x5A, 0xFF, 0x13]), tier, seed, '%s:Reg2Axi.__init__' % VW)
     # a register width that is not a whole number of bytes (KEEP must still cover the byte that holds the top bits)
